@@ -100,6 +100,9 @@ Lowers07(t) == {
   Single("a", S(t)), Single("a", Single("b", S(t))), Single("l", L(<<S(t)>>)), Single("l", L(<<I("1"), S(t)>>)),
   Mk2("a", I("1"), "o", Mk2("$output", False, "x", S(t))), Single(t, I("1")), Single("a", Single(t, I("1"))),
   Single("l", L(<<Single(t, I("1"))>>)), Single("e", Mk2("$encode", S("join"), "$value", L(<<S(t)>>))),
+  (* the encoded text hides the marker from the final check: only the check of the encoder's input sees it *)
+  Single("e", L(<<S("x"), S(t), Single("$encode", S("join:,"))>>)), Single("e", L(<<S("x"), L(<<S(t)>>), Single("$encode", L(<<S("flatten"), S("join:-")>>))>>)),
+  Single("e", Mk2("$encode", L(<<S("values"), S("join:+")>>), "k", S(t))),
   Single("v", Single("$value", S(t))), L(<<S(t)>>), Mk2("a", S(t), "$output", True),
   (* a selected subtree below an excluded one is still emitted, so it is still validated *)
   Mk2("a", I("1"), "o", Mk2("$output", False, "in", Mk2("$output", True, "x", S(t)))),
@@ -403,6 +406,13 @@ CasesC13(lazy) ==
         THEN {CaseX(<<Doc13(Tmpl2(l1, r1, l2, r2, l3))>>, Env13, "two3", <<l1, r1, l2, r2, l3>>)
                 : l1 \in {"", "\"", "a}"}, r1 \in Refs13, l2 \in Lits, r2 \in Refs13, l3 \in {"", "\"", ":"}}
         ELSE {})
+  (* a placeholder runs from the first "{" to the next "}": a literal "{" next to it belongs to the name *)
+  \cup {CaseX(<<Doc13(b[1]) %% (IF b[3] THEN Mk2("{n", I("9"), "n{", I("8")) ELSE EmptyMap)>>, Env13, "brace", <<b[2], b[3]>>)
+          : b \in { <<"$\"{n{}\"", "8", TRUE>>, <<"$\"<{n{}>\"", "<8>", TRUE>>, <<"$\"{n{}\"", "", FALSE>>,
+                    (* a name starting with "{" is read as a flow-style path and is not a key: always an error *)
+                    <<"$\"{{n}\"", "", TRUE>>, <<"$\"{{n}}\"", "", TRUE>>, <<"$\"a{{n}b\"", "", TRUE>>,
+                    <<"$\"{{n}\"", "", FALSE>>, <<"$\"{{n}}\"", "", FALSE>>, <<"$\"{{$env:V}\"", "", FALSE>>,
+                    <<"$\"{n}}\"", "42}", FALSE>>, <<"$\"}{n}{\"", "}42{", FALSE>> }}
   \cup {Case(<<Mk2("t", S("$env:" \o v), "$env:V", I("1"))>>, Env13, "env") : v \in {"V", "E", "N", "UNSET"}}
   \cup {Case(<<Mk3("a", S("$\"{b}\""), "b", S("$\"<{n}>\""), "n", I("5"))>>, Env13, "nested") : x \in {1}}
 
@@ -422,6 +432,8 @@ LawC13(cs) ==
          IF Known13(r1) /\ Known13(r2)
          THEN r.ok /\ At(r.v[1], "t") = S(l1 \o Value13(r1) \o l2 \o Value13(r2) \o l3)
          ELSE ~r.ok
+    [] cs.tag = "brace" ->
+         IF cs.aux[1] = "" THEN ~r.ok ELSE r.ok /\ At(r.v[1], "t") = S(cs.aux[1])
     [] cs.tag = "env" ->
          IF At(cs.docs[1], "t") = S("$env:UNSET") THEN ~r.ok
          ELSE r.ok /\ IsStr(At(r.v[1], "t")) /\ Has(r.v[1], "val") /\ ~Has(r.v[1], "$env:V")
